@@ -17,6 +17,10 @@ Definition atomb (e : expr) : bool :=
   | _ => false
   end.
 
+Definition zero_ident (i : ident) : bool := Z.eqb (id_pos i) 0 && Z.eqb (id_end i) 0.
+Definition position_keywordb (kw : bytes) : bool :=
+  bytes_eqb kw (bs "OFFSET") || bytes_eqb kw (bs "ORDINAL") || bytes_eqb kw (bs "SAFE_OFFSET") || bytes_eqb kw (bs "SAFE_ORDINAL").
+
 Definition le_opt (o : option nat) (n : nat) : bool := match o with Some k => Nat.leb k n | None => false end.
 
 (* the smallest level at which the tree is canonical *)
@@ -48,6 +52,16 @@ Fixpoint minlevel (e : expr) : option nat :=
       if Z.eqb lp 0 && Z.eqb rp 0 && le_opt (minlevel l) 8 && le_opt (minlevel e1) 12 &&
          (fix all (r : list expr) : bool := match r with [] => true | x :: r' => le_opt (minlevel x) 12 && all r' end) es
       then Some 9 else None
+  | EPath (i1 :: i2 :: r) => if forallb zero_ident (i1 :: i2 :: r) && plain_name (id_name i1) then Some 1 else None
+  | ESelector x i => if zero_ident i && le_opt (minlevel x) 1 && negb (pathlike x) then Some 1 else None
+  | EIndex rb x (SExprArg ix) =>
+      if Z.eqb rb 0 && le_opt (minlevel x) 1 && le_opt (minlevel ix) 12 && free_subscript ix then Some 1 else None
+  | EIndex rb x (SKeyword kp rp kw ix) =>
+      if Z.eqb rb 0 && Z.eqb kp 0 && Z.eqb rp 0 && le_opt (minlevel x) 1 && le_opt (minlevel ix) 12 && position_keywordb kw then Some 1 else None
+  | ETuple lp rp (e1 :: e2 :: es) =>
+      if Z.eqb lp 0 && Z.eqb rp 0 && le_opt (minlevel e1) 12 && le_opt (minlevel e2) 12 &&
+         (fix all (r : list expr) : bool := match r with [] => true | x :: r' => le_opt (minlevel x) 12 && all r' end) es
+      then Some 0 else None
   | _ => None
   end.
 
@@ -75,6 +89,23 @@ Proof. unfold is_sign_byte. intros H. apply orb_true_iff in H as [H | H]; apply 
 
 Lemma le_opt_ok o n : le_opt o n = true -> exists k, o = Some k /\ k <= n.
 Proof. destruct o as [k|]; cbn; [|discriminate]. intros H. apply Nat.leb_le in H. eauto. Qed.
+
+Lemma zero_ident_ok i : zero_ident i = true -> i = zident (id_name i).
+Proof.
+  destruct i as [a b n]. unfold zero_ident. cbn. intros H. apply andb_true_iff in H as [A B]. apply zeqb0 in A, B. subst. reflexivity.
+Qed.
+
+Lemma zero_idents_ok : forall l, forallb zero_ident l = true -> l = map zident (map id_name l).
+Proof.
+  induction l as [|i r IH]; [reflexivity|]. cbn [forallb map]. intros H. apply andb_true_iff in H as [A B].
+  rewrite <- (zero_ident_ok i A), <- (IH B). reflexivity.
+Qed.
+
+Lemma position_keywordb_ok kw : position_keywordb kw = true -> position_keyword kw.
+Proof.
+  unfold position_keywordb, position_keyword. intros H.
+  apply orb_true_iff in H as [H|H]; [apply orb_true_iff in H as [H|H]; [apply orb_true_iff in H as [H|H]|]|]; apply bytes_eqb_eq in H; auto.
+Qed.
 
 Theorem minlevel_ok : forall e k, minlevel e = Some k -> can k e.
 Proof.
@@ -137,10 +168,39 @@ Proof.
     apply andb_true_iff in B as [B B3]. apply andb_true_iff in B as [B1 B2].
     destruct (le_opt_ok _ _ B1) as (k1 & M1 & L1). destruct (le_opt_ok _ _ B2) as (k2 & M2 & L2). destruct (le_opt_ok _ _ B3) as (k3 & M3 & L3).
     apply CBetween; eapply CUp; eauto.
+  - (* selector *)
+    match type of H with (if ?c then _ else _) = _ => destruct c eqn:B end; [|discriminate]. inversion H; subst k.
+    apply andb_true_iff in B as [B B3]. apply andb_true_iff in B as [B1 B2]. apply negb_true_iff in B3.
+    rewrite (zero_ident_ok _ B1). destruct (le_opt_ok _ _ B2) as (k1 & M1 & L1).
+    apply CSelector; [eapply CUp; eauto|exact B3].
+  - (* subscript *)
+    destruct ix as [kp rp kw ix|ix]; cbn [minlevel] in H;
+      (match type of H with (if ?c then _ else _) = _ => destruct c eqn:B end; [|discriminate]); inversion H; subst k.
+    + apply andb_true_iff in B as [B B6]. apply andb_true_iff in B as [B B5]. apply andb_true_iff in B as [B B4].
+      apply andb_true_iff in B as [B Z3]. apply andb_true_iff in B as [Z1 Z2]. apply zeqb0 in Z1, Z2, Z3. subst.
+      destruct (le_opt_ok _ _ B4) as (k1 & M1 & L1). destruct (le_opt_ok _ _ B5) as (k2 & M2 & L2).
+      apply CIndexKw; [eapply CUp; eauto|eapply CUp; eauto|apply position_keywordb_ok, B6].
+    + apply andb_true_iff in B as [B B4]. apply andb_true_iff in B as [B B3]. apply andb_true_iff in B as [Z1 B2]. apply zeqb0 in Z1. subst.
+      destruct (le_opt_ok _ _ B2) as (k1 & M1 & L1). destruct (le_opt_ok _ _ B3) as (k2 & M2 & L2).
+      apply CIndex; [eapply CUp; eauto|eapply CUp; eauto|exact B4].
   - (* paren *)
     match type of H with (if ?c then _ else _) = _ => destruct c eqn:B end; [|discriminate]. inversion H; subst k.
     apply andb_true_iff in B as [B B2]. apply andb_true_iff in B as [Z1 Z2]. apply zeqb0 in Z1, Z2. subst.
     destruct (le_opt_ok _ _ B2) as (k1 & M1 & L1). apply CParen. eapply CUp; eauto.
+  - (* tuple *)
+    destruct vs as [|e1 [|e2 es]]; try discriminate.
+    match type of H with (if ?c then _ else _) = _ => destruct c eqn:B end; [|discriminate]. inversion H; subst k.
+    apply andb_true_iff in B as [B B5]. apply andb_true_iff in B as [B B4]. apply andb_true_iff in B as [B B3]. apply andb_true_iff in B as [Z1 Z2].
+    apply zeqb0 in Z1, Z2. subst.
+    destruct (le_opt_ok _ _ B3) as (k1 & M1 & L1). destruct (le_opt_ok _ _ B4) as (k2 & M2 & L2).
+    apply CTuple; [eapply CUp; eauto|eapply CUp; eauto|].
+    clear -IH B5. induction es as [|x r IHr]; [constructor|].
+    apply andb_true_iff in B5 as [Bx Br]. destruct (le_opt_ok _ _ Bx) as (kx & Mx & Lx).
+    constructor; [eapply CUp; [apply IH, Mx|exact Lx]|apply IHr, Br].
+  - (* path *)
+    destruct ids as [|i1 [|i2 r]]; try discriminate.
+    match type of H with (if ?c then _ else _) = _ => destruct c eqn:B end; [|discriminate]. inversion H; subst k.
+    apply andb_true_iff in B as [B1 B2]. rewrite (zero_idents_ok _ B1). cbn [map]. apply CPath. exact B2.
   - (* signed int *)
     destruct v as [|c v]; [discriminate|].
     match type of H with (if ?c then _ else _) = _ => destruct c eqn:B end; [|discriminate]. inversion H; subst k.
